@@ -174,7 +174,13 @@ def sphere_rows():
 
 
 # ----------------------------------------------------------------------------------------------------------------------
-# round 6: what the *source text* says (python `ast` on the current source; nothing is evaluated or interpreted here)
+# round 6 / 6b: what the *source text* says (python `ast` on the current source; nothing is evaluated or interpreted here).
+#
+# Normalisation (only statement-level edits change a table): comments, docstrings, blank lines, `print(...)` statements and
+# type annotations are not seen; in the function-level translators (`get_slice`, `Stack.chop`, `Grid.__init__`, the one-line
+# properties) every parameter other than self and every assigned / loop / comprehension name is renamed v0, v1, … in order of
+# first appearance; literals are printed by `ast.unparse`.  A form the translator does not know is emitted as such (row kind 9,
+# "?" strings, "<not a single return>") — the tables are always emitted, a class that cannot be read degrades alone.
 
 SKETCH_CLASSES = [
     "OneCoreDisk", "QuarterDisk", "HalfDisk", "FourCoreDisk", "WrappedDisk", "Oval", "Annulus",
@@ -193,13 +199,85 @@ def _classes():
     return out
 
 
-def _fn_tree(fn):
+def _safe(fn, default):
+    """a class / function the translator cannot read degrades to `default`; the other entries are still emitted"""
+    try:
+        return fn()
+    except Exception:
+        return default
+
+
+def _raw_tree(fn):
     import ast
     import inspect
     import textwrap
 
     fn = getattr(fn, "fget", fn)
     return ast.parse(textwrap.dedent(inspect.getsource(fn))).body[0]
+
+
+def _fn_tree(fn):
+    """the function with annotations dropped and every parameter (not self) / assigned / loop / comprehension name renamed
+    v0, v1, … in order of first appearance"""
+    import ast
+
+    tree = _raw_tree(fn)
+    names: List[str] = []
+
+    def add(n: str) -> None:
+        if n not in names and n not in ("self", "cls"):
+            names.append(n)
+
+    class Collect(ast.NodeVisitor):
+        def visit_arguments(self, a):
+            for x in a.posonlyargs + a.args + ([a.vararg] if a.vararg else []) + a.kwonlyargs + ([a.kwarg] if a.kwarg else []):
+                add(x.arg)
+
+        def visit_Name(self, node):
+            if isinstance(node.ctx, ast.Store):
+                add(node.id)
+
+    Collect().visit(tree)
+    new = {n: f"v{k}" for k, n in enumerate(names)}
+
+    class Rename(ast.NodeTransformer):
+        def visit_Name(self, n):
+            return ast.copy_location(ast.Name(id=new.get(n.id, n.id), ctx=n.ctx), n)
+
+        def visit_arg(self, n):
+            n.arg = new.get(n.arg, n.arg)
+            n.annotation = None
+            return n
+
+        def visit_AnnAssign(self, n):
+            self.generic_visit(n)
+            if n.value is None:
+                return None
+            return ast.copy_location(ast.Assign(targets=[n.target], value=n.value), n)
+
+        def visit_FunctionDef(self, n):
+            self.generic_visit(n)
+            n.returns = None
+            return n
+
+    tree = ast.fix_missing_locations(Rename().visit(tree))
+    return tree
+
+
+def _stmts(body):
+    """the statements that count: no docstrings / bare constants, no `print(...)`, no `pass`"""
+    import ast
+
+    out = []
+    for n in body:
+        if isinstance(n, ast.Expr) and isinstance(n.value, ast.Constant):
+            continue
+        if isinstance(n, ast.Expr) and isinstance(n.value, ast.Call) and ast.unparse(n.value.func) == "print":
+            continue
+        if isinstance(n, ast.Pass):
+            continue
+        out.append(n)
+    return out
 
 
 def _definer(cls, attr):
@@ -215,7 +293,7 @@ def _row_spec(node):
     import ast
 
     def nat(n):
-        return n.value if isinstance(n, ast.Constant) and isinstance(n.value, int) and n.value >= 0 else None
+        return n.value if isinstance(n, ast.Constant) and isinstance(n.value, int) and not isinstance(n.value, bool) and n.value >= 0 else None
 
     def is_faces(n):
         return isinstance(n, ast.Attribute) and n.attr == "faces" and isinstance(n.value, ast.Name) and n.value.id == "self"
@@ -238,23 +316,24 @@ def _row_spec(node):
     if (isinstance(node, ast.List) and len(node.elts) == 1 and isinstance(node.elts[0], ast.Subscript)
             and is_faces(node.elts[0].value) and nat(node.elts[0].slice) is not None):
         return (1, nat(node.elts[0].slice), 0, 0)
-    # [face for i, face in enumerate(self.faces) if not i % m == r]
+    # [face for i, face in enumerate(self.faces) if not i % m == r]   (whatever the two variables are called)
     if isinstance(node, ast.ListComp) and len(node.generators) == 1:
         g = node.generators[0]
         try:
-            ok = (
-                isinstance(g.target, ast.Tuple) and [e.id for e in g.target.elts] == ["i", "face"]
-                and isinstance(node.elt, ast.Name) and node.elt.id == "face"
+            ok = isinstance(g.target, ast.Tuple) and len(g.target.elts) == 2
+            vi, vf = (e.id for e in g.target.elts)
+            ok = ok and (
+                isinstance(node.elt, ast.Name) and node.elt.id == vf
                 and isinstance(g.iter, ast.Call) and g.iter.func.id == "enumerate" and is_faces(g.iter.args[0])
                 and len(g.ifs) == 1 and isinstance(g.ifs[0], ast.UnaryOp) and isinstance(g.ifs[0].op, ast.Not)
             )
             cmp_ = g.ifs[0].operand
             ok = ok and isinstance(cmp_, ast.Compare) and isinstance(cmp_.ops[0], ast.Eq) and isinstance(cmp_.left, ast.BinOp)
-            ok = ok and isinstance(cmp_.left.op, ast.Mod) and cmp_.left.left.id == "i"
+            ok = ok and isinstance(cmp_.left.op, ast.Mod) and cmp_.left.left.id == vi
             m, r = nat(cmp_.left.right), nat(cmp_.comparators[0])
             if ok and m and r is not None:
                 return (2, m, r, 0)
-        except AttributeError:
+        except (AttributeError, ValueError, TypeError):
             pass
     return (9, 0, 0, 0)
 
@@ -264,7 +343,7 @@ def grid_spec(cls):
     import ast
 
     k = _definer(cls, "grid")
-    body = [n for n in _fn_tree(vars(k)["grid"]).body if not (isinstance(n, ast.Expr) and isinstance(n.value, ast.Constant))]
+    body = _stmts(_raw_tree(vars(k)["grid"]).body)
     bad = (k.__name__, 0, [(9, 0, 0, 0)])
     if len(body) != 1:
         return bad
@@ -272,12 +351,13 @@ def grid_spec(cls):
     guard = 0
     if isinstance(st, ast.If):
         t = st.test
+        then, orelse = _stmts(st.body), _stmts(st.orelse)
         if not (isinstance(t, ast.Compare) and isinstance(t.ops[0], ast.Gt) and ast.unparse(t.left) == "len(self.faces)"
-                and isinstance(t.comparators[0], ast.Constant) and len(st.body) == 1 and len(st.orelse) == 1
-                and isinstance(st.orelse[0], ast.Return) and ast.unparse(st.orelse[0].value) == "super().grid"):
+                and isinstance(t.comparators[0], ast.Constant) and len(then) == 1 and len(orelse) == 1
+                and isinstance(orelse[0], ast.Return) and ast.unparse(orelse[0].value) == "super().grid"):
             return bad
         guard = t.comparators[0].value
-        st = st.body[0]
+        st = then[0]
     if not (isinstance(st, ast.Return) and isinstance(st.value, ast.List)):
         if isinstance(st, ast.Return) and ast.unparse(st.value) == "self._grid":
             return (k.__name__, guard, [(5, 0, 0, 0)])  # Grid: the list its constructor filled
@@ -286,17 +366,19 @@ def grid_spec(cls):
 
 
 def quad_map(cls):
-    """the literal assigned to `quad_map` in the class's own `__init__` (None if there is none)"""
+    """the list-of-quads literal assigned to a local in the class's own `__init__` (None if there is none)"""
     import ast
 
     if "__init__" not in vars(cls):
         return None
-    for n in ast.walk(_fn_tree(vars(cls)["__init__"])):
-        if isinstance(n, ast.Assign) and len(n.targets) == 1 and isinstance(n.targets[0], ast.Name) and n.targets[0].id == "quad_map":
+    for n in ast.walk(_raw_tree(vars(cls)["__init__"])):
+        if isinstance(n, ast.Assign) and len(n.targets) == 1 and isinstance(n.targets[0], ast.Name) and isinstance(n.value, ast.List):
             try:
-                return [list(q) for q in ast.literal_eval(n.value)]
+                v = ast.literal_eval(n.value)
             except ValueError:
-                return None
+                continue
+            if v and all(isinstance(q, list) and len(q) == 4 and all(isinstance(x, int) and x >= 0 for x in q) for q in v):
+                return [list(q) for q in v]
     return None
 
 
@@ -307,28 +389,29 @@ def merge_spec(cls):
 
     if "__init__" not in vars(cls):
         return None
-    tree = _fn_tree(vars(cls)["__init__"])
+    tree = _raw_tree(vars(cls)["__init__"])
     assigns = {n.targets[0].id: n.value for n in ast.walk(tree)
                if isinstance(n, ast.Assign) and len(n.targets) == 1 and isinstance(n.targets[0], ast.Name)}
     for n in ast.walk(tree):
-        if isinstance(n, ast.Call) and ast.unparse(n.func) == "self.merge" and len(n.args) == 1 and isinstance(n.args[0], ast.Name):
-            v = assigns.get(n.args[0].id)
-            if isinstance(v, ast.Call) and isinstance(v.func, ast.Name):
-                return ("cls", v.func.id)
-            if v is not None and ast.unparse(v).startswith("self.copy()"):
-                return ("self", "")
+        if isinstance(n, ast.Call) and ast.unparse(n.func) == "self.merge":
+            if len(n.args) == 1 and isinstance(n.args[0], ast.Name):
+                v = assigns.get(n.args[0].id)
+                if isinstance(v, ast.Call) and isinstance(v.func, ast.Name):
+                    return ("cls", v.func.id)
+                if v is not None and ast.unparse(v).startswith("self.copy()"):
+                    return ("self", "")
             return ("?", "")
     return None
 
 
 def returns(cls, attr):
-    """the unparsed expression of a method / property whose body is one `return`"""
+    """the unparsed expression of a method / property whose body is one `return` (names bound inside it renamed v0, …)"""
     import ast
 
     k = _definer(cls, attr)
     if k is None:
         return "<undefined>"
-    body = [n for n in _fn_tree(vars(k)[attr]).body if not (isinstance(n, ast.Expr) and isinstance(n.value, ast.Constant))]
+    body = _stmts(_fn_tree(vars(k)[attr]).body)
     if len(body) == 1 and isinstance(body[0], ast.Return):
         return ast.unparse(body[0].value) if body[0].value is not None else "None"
     return "<not a single return>"
@@ -336,7 +419,7 @@ def returns(cls, attr):
 
 def slice_spec():
     """the branches of `Stack.get_slice` after its guards: (axis tested — 99 for `else` —, [element expression with the
-    comprehension variable written `loop`, iterated expression])"""
+    comprehension variable written `loop`, iterated expression]); names as renamed by `_fn_tree` (v0 = axis, v1 = index, …)"""
     import ast
 
     from classy_blocks.construct.stack import Stack
@@ -345,34 +428,38 @@ def slice_spec():
     out = []
 
     def axis_of(test):
-        if isinstance(test, ast.Compare) and isinstance(test.ops[0], ast.Eq) and ast.unparse(test.left) == "axis" \
-                and isinstance(test.comparators[0], ast.Constant):
+        if isinstance(test, ast.Compare) and len(test.ops) == 1 and isinstance(test.ops[0], ast.Eq) and ast.unparse(test.left) == "v0" \
+                and isinstance(test.comparators[0], ast.Constant) and isinstance(test.comparators[0].value, int):
             return test.comparators[0].value
         return None
 
     def comp(stmts):
-        # for shape in self.shapes: operations += [<elt> for <v> in <iter>]
+        # for <shape> in self.shapes: <acc> += [<elt> for <v> in <iter>]   -> the shape variable is written `shape`
+        stmts = _stmts(stmts)
         if len(stmts) == 1 and isinstance(stmts[0], ast.For) and ast.unparse(stmts[0].iter) == "self.shapes" \
-                and ast.unparse(stmts[0].target) == "shape" and len(stmts[0].body) == 1:
-            a = stmts[0].body[0]
-            if isinstance(a, ast.AugAssign) and isinstance(a.op, ast.Add) and ast.unparse(a.target) == "operations" \
-                    and isinstance(a.value, ast.ListComp) and len(a.value.generators) == 1 and not a.value.generators[0].ifs:
+                and isinstance(stmts[0].target, ast.Name) and len(_stmts(stmts[0].body)) == 1:
+            a = _stmts(stmts[0].body)[0]
+            if isinstance(a, ast.AugAssign) and isinstance(a.op, ast.Add) and isinstance(a.target, ast.Name) \
+                    and isinstance(a.value, ast.ListComp) and len(a.value.generators) == 1 and not a.value.generators[0].ifs \
+                    and isinstance(a.value.generators[0].target, ast.Name):
                 g = a.value.generators[0]
-                var = ast.unparse(g.target)
+                ren = {g.target.id: "loop", stmts[0].target.id: "shape"}
 
                 class Ren(ast.NodeTransformer):
                     def visit_Name(self, n):
-                        return ast.copy_location(ast.Name(id="loop", ctx=n.ctx), n) if n.id == var else n
+                        return ast.copy_location(ast.Name(id=ren.get(n.id, n.id), ctx=n.ctx), n)
 
-                return [ast.unparse(Ren().visit(a.value.elt)), ast.unparse(g.iter)]
+                return [ast.unparse(Ren().visit(a.value.elt)), ast.unparse(Ren().visit(g.iter))]
         return ["?", "?"]
 
-    for st in tree.body:
-        if isinstance(st, ast.If) and axis_of(st.test) is not None and isinstance(st.body[0], ast.Return):
-            out.append((axis_of(st.test), [ast.unparse(st.body[0].value)]))
-        elif isinstance(st, ast.If) and axis_of(st.test) is not None:
-            out.append((axis_of(st.test), comp(st.body)))
-            out.append((99, comp(st.orelse)))
+    for st in _stmts(tree.body):
+        if isinstance(st, ast.If) and axis_of(st.test) is not None:
+            body = _stmts(st.body)
+            if len(body) == 1 and isinstance(body[0], ast.Return) and not st.orelse:
+                out.append((axis_of(st.test), [ast.unparse(body[0].value)]))
+            else:
+                out.append((axis_of(st.test), comp(st.body)))
+                out.append((99, comp(st.orelse)))
     return out
 
 
@@ -382,22 +469,26 @@ def stack_chop_spec():
 
     from classy_blocks.construct.stack import Stack
 
-    body = [n for n in _fn_tree(Stack.chop).body if not (isinstance(n, ast.Expr) and isinstance(n.value, ast.Constant))]
+    body = _stmts(_fn_tree(Stack.chop).body)
     try:
         loop = body[0]
-        call = loop.body[0].value
-        sub = call.func.value  # shape.grid[a][b]
-        if (len(body) == 1 and isinstance(loop, ast.For) and ast.unparse(loop.iter) == "self.shapes" and len(loop.body) == 1
-                and call.func.attr == "chop" and ast.unparse(sub.value.value) == "shape.grid"):
-            return [sub.value.slice.value, sub.slice.value, call.args[0].value]
+        inner = _stmts(loop.body)
+        call = inner[0].value
+        sub = call.func.value  # <shape>.grid[a][b]
+        if (len(body) == 1 and isinstance(loop, ast.For) and ast.unparse(loop.iter) == "self.shapes" and len(inner) == 1
+                and call.func.attr == "chop" and ast.unparse(sub.value.value) == f"{loop.target.id}.grid"):
+            vals = [sub.value.slice.value, sub.slice.value, call.args[0].value]
+            if all(isinstance(v, int) and not isinstance(v, bool) and v >= 0 for v in vals):
+                return vals
     except (AttributeError, IndexError):
         pass
     return []
 
 
 def grid_init_spec():
-    """`Grid.__init__`: the two loops (variable, count argument) outer first; the coordinates arrays (name, component of the
-    corner points, count argument); the four points of a face ((x array, loop variable, offset), (y array, variable, offset))"""
+    """`Grid.__init__` with names as renamed by `_fn_tree` (v0 v1 = the corner points, v2 v3 = the counts, then the locals in
+    order of first assignment): the two loops (variable, count argument) outer first; the coordinates arrays (name, component
+    of the corner points, count argument); the four points of a face ((x array, loop variable, offset), (y array, variable, offset))"""
     import ast
 
     from classy_blocks.construct.flat.sketches.grid import Grid
@@ -408,33 +499,37 @@ def grid_init_spec():
         if isinstance(n, ast.Assign) and isinstance(n.value, ast.Call) and ast.unparse(n.value.func) == "np.linspace":
             c = n.value
             num = [k.value for k in c.keywords if k.arg == "num"]
-            a, b = c.args[0], c.args[1]
-            if (len(num) == 1 and isinstance(num[0], ast.BinOp) and isinstance(num[0].op, ast.Add) and ast.unparse(num[0].right) == "1"
-                    and ast.unparse(a.value) == "point_1" and ast.unparse(b.value) == "point_2"
-                    and ast.unparse(a.slice) == ast.unparse(b.slice) and len(c.keywords) == 1):
+            ok = len(c.args) == 2 and all(isinstance(x, ast.Subscript) for x in c.args) and len(num) == 1 and len(c.keywords) == 1
+            if ok:
+                a, b = c.args
+                ok = (isinstance(num[0], ast.BinOp) and isinstance(num[0].op, ast.Add) and ast.unparse(num[0].right) == "1"
+                      and ast.unparse(a.value) == "v0" and ast.unparse(b.value) == "v1" and ast.unparse(a.slice) == ast.unparse(b.slice)
+                      and ast.unparse(a.slice).isdigit())
+            if ok:
                 coords.append((n.targets[0].id, int(ast.unparse(a.slice)), ast.unparse(num[0].left)))
             else:
-                coords.append((n.targets[0].id, 99, ast.unparse(n.value)))
+                coords.append((ast.unparse(n.targets[0]), 99, ast.unparse(n.value)))
     loops, points = [], []
 
     def idx(e):
-        # coords_1[ix] / coords_1[ix + 1]
+        # coords[ix] / coords[ix + 1]
         s = e.slice
         if isinstance(s, ast.Name):
             return (ast.unparse(e.value), s.id, 0)
-        if isinstance(s, ast.BinOp) and isinstance(s.op, ast.Add) and isinstance(s.left, ast.Name) and isinstance(s.right, ast.Constant):
+        if isinstance(s, ast.BinOp) and isinstance(s.op, ast.Add) and isinstance(s.left, ast.Name) and isinstance(s.right, ast.Constant) \
+                and isinstance(s.right.value, int) and s.right.value >= 0:
             return (ast.unparse(e.value), s.left.id, s.right.value)
         return (ast.unparse(e), "?", 99)
 
     def walk_for(node):
-        for st in node.body:
+        for st in _stmts(node.body):
             if isinstance(st, ast.For):
                 arg = ast.unparse(st.iter.args[0]) if isinstance(st.iter, ast.Call) and ast.unparse(st.iter.func) == "range" and len(st.iter.args) == 1 else "?"
                 loops.append((ast.unparse(st.target), arg))
                 walk_for(st)
-            elif isinstance(st, ast.Assign) and ast.unparse(st.targets[0]) == "points" and isinstance(st.value, ast.List):
+            elif isinstance(st, ast.Assign) and isinstance(st.value, ast.List) and st.value.elts and all(isinstance(p, ast.List) for p in st.value.elts):
                 for p in st.value.elts:
-                    if isinstance(p, ast.List) and len(p.elts) == 3 and ast.unparse(p.elts[2]) == "0" \
+                    if len(p.elts) == 3 and ast.unparse(p.elts[2]) == "0" \
                             and isinstance(p.elts[0], ast.Subscript) and isinstance(p.elts[1], ast.Subscript):
                         points.append((idx(p.elts[0]), idx(p.elts[1])))
                     else:
@@ -444,51 +539,8 @@ def grid_init_spec():
     return loops, coords, points
 
 
-def emit_source(emit) -> None:
-    from classy_blocks.construct.shape import LoftedShape
-    from classy_blocks.construct.shapes.round import RoundHollowShape, RoundSolidShape
-    from classy_blocks.construct.stack import Stack
-
-    cl = _classes()
-    names = [n for n in SKETCH_CLASSES if n in cl]
-    emit("c19QuadMaps", "List (String × List (List Nat))", [(n, quad_map(cl[n])) for n in names if quad_map(cl[n]) is not None],
-         "the `quad_map` literal in the class's own __init__ (ast)")
-    emit("c19GridSpecs", "List (String × String × Nat × List (Nat × Nat × Nat × Nat))", [(n, *grid_spec(cl[n])) for n in names],
-         "the `grid` property: (class, class that defines it, guard N of `if len(self.faces) > N … else super().grid` or 0, rows); "
-         "row (0,a,b,c) = self.faces[a:b-1:c] (b = 0: to the end), (1,a,_,_) = [self.faces[a]], (2,m,r,_) = faces with index % m != r, "
-         "(3,…) = self.faces, (4,…) = self.shell, (5,…) = self._grid, (9,…) = anything else")
-    emit("c19Parents", "List (String × String)", [(n, cl[n].__mro__[1].__name__) for n in names], "direct base class")
-    emit("c19Merges", "List (String × String × String)",
-         [(n, *merge_spec(cl[n])) for n in names if merge_spec(cl[n]) is not None],
-         "`self.merge(x)` in the class's own __init__ after `super().__init__`: x is an instance of (\"cls\", Name) or a copy of self")
-    pins = []
-    for n in names:
-        for attr in ("core", "shell", "faces"):
-            k = _definer(cl[n], attr)
-            if k is None:
-                continue
-            if isinstance(vars(k)[attr], property):
-                pins.append((f"{n}.{attr}", k.__name__, returns(cl[n], attr)))
-            else:
-                pins.append((f"{n}.{attr}", k.__name__, "<attribute>"))
-    for k, attr in ((RoundSolidShape, "core"), (RoundSolidShape, "shell"), (RoundHollowShape, "shell"), (LoftedShape, "operations"),
-                    (LoftedShape, "grid"), (Stack, "grid"), (Stack, "operations")):
-        pins.append((f"{k.__name__}.{attr}", _definer(k, attr).__name__, returns(k, attr)))
-    emit("c19Returns", "List (String × String × String)", pins,
-         "(what, defining class, the expression its single `return` statement returns)")
-    emit("c19SliceSpec", "List (Nat × List String)", slice_spec(), "the branches of Stack.get_slice after the guards")
-    emit("c19StackChop", "List Nat", stack_chop_spec(), "Stack.chop: shape.grid[a][b].chop(axis): [a, b, axis]")
-    loops, coords, points = grid_init_spec()
-    emit("c19GridLoops", "List (String × String)", loops, "Grid.__init__: (loop variable, argument of range), outer loop first")
-    emit("c19GridCoords", "List (String × Nat × String)", coords, "Grid.__init__: name = np.linspace(point_1[c], point_2[c], num=<count> + 1)")
-    emit("c19GridPoints", "List ((String × String × Nat) × (String × String × Nat))", points,
-         "Grid.__init__: the points of a face: ((x array, index variable, offset), (y array, index variable, offset)), z = 0")
-    emit("c19Chops", "List (String × List (List Nat))", [(n, [list(c) for c in cl[n].chops]) for n in names],
-         "Sketch.chops of the class (indexes into shape.operations for axis 0 and axis 1)")
-
-
-def emit_all(emit) -> None:
-    emit_source(emit)
+# -------------------------------------------------------------------------------------------- emit groups (each on its own)
+def _emit_probe_sketches(emit) -> None:
     sk_rows = [sketch_row(n, sk, seg) for n, sk, seg in sketch_probes()]
     emit(
         "c19Sketches",
@@ -496,6 +548,9 @@ def emit_all(emit) -> None:
         sk_rows,
         "round sketches: (name, quads as point ids, sketch.grid as face indices, sketch.core, sketch.shell, rim point ids)",
     )
+
+
+def _emit_probe_shapes(emit) -> None:
     sh_rows = [shape_row(n, sn, sh) for n, sn, sh in shape_probes()] + sphere_rows()
     emit(
         "c19Shapes",
@@ -504,3 +559,103 @@ def emit_all(emit) -> None:
         "round shapes: (name, sketch, operations as 8 point ids, sketch face of every operation, shape.core, shape.shell "
         "as operation indices, rim point ids)",
     )
+
+
+def _names():
+    cl = _safe(_classes, {})
+    return cl, [n for n in SKETCH_CLASSES if n in cl]
+
+
+def _emit_values(emit) -> None:
+    cl, names = _names()
+    emit("c19Parents", "List (String × String)", [(n, _safe(lambda n=n: cl[n].__mro__[1].__name__, "?")) for n in names], "direct base class")
+    emit("c19Chops", "List (String × List (List Nat))",
+         [(n, _safe(lambda n=n: [[int(i) for i in c] for c in cl[n].chops], [])) for n in names],
+         "Sketch.chops of the class (indexes into shape.operations for axis 0 and axis 1)")
+
+
+def _emit_quad_maps(emit) -> None:
+    cl, names = _names()
+    rows = []
+    for n in names:
+        q = _safe(lambda n=n: quad_map(cl[n]), None)
+        if q is not None:
+            rows.append((n, q))
+    emit("c19QuadMaps", "List (String × List (List Nat))", rows, "the list-of-quads literal in the class's own __init__ (ast)")
+
+
+def _emit_grid_specs(emit) -> None:
+    cl, names = _names()
+    emit("c19GridSpecs", "List (String × String × Nat × List (Nat × Nat × Nat × Nat))",
+         [(n, *_safe(lambda n=n: grid_spec(cl[n]), ("?", 0, [(9, 0, 0, 0)]))) for n in names],
+         "the `grid` property: (class, class that defines it, guard N of `if len(self.faces) > N … else super().grid` or 0, rows); "
+         "row (0,a,b,c) = self.faces[a:b-1:c] (b = 0: to the end), (1,a,_,_) = [self.faces[a]], (2,m,r,_) = faces with index % m != r, "
+         "(3,…) = self.faces, (4,…) = self.shell, (5,…) = self._grid, (9,…) = anything else")
+
+
+def _emit_merges(emit) -> None:
+    cl, names = _names()
+    rows = []
+    for n in names:
+        m = _safe(lambda n=n: merge_spec(cl[n]), ("?", ""))
+        if m is not None:
+            rows.append((n, *m))
+    emit("c19Merges", "List (String × String × String)", rows,
+         "`self.merge(x)` in the class's own __init__ after `super().__init__`: x is an instance of (\"cls\", Name) or a copy of self")
+
+
+def _emit_returns(emit) -> None:
+    cl, names = _names()
+    pins = []
+    for n in names:
+        for attr in ("core", "shell", "faces"):
+            k = _safe(lambda n=n, attr=attr: _definer(cl[n], attr), None)
+            if k is None:
+                continue
+            if isinstance(vars(k)[attr], property):
+                pins.append((f"{n}.{attr}", k.__name__, _safe(lambda n=n, attr=attr: returns(cl[n], attr), "?")))
+            else:
+                pins.append((f"{n}.{attr}", k.__name__, "<attribute>"))
+
+    def shape_pins():
+        from classy_blocks.construct.shape import LoftedShape
+        from classy_blocks.construct.shapes.round import RoundHollowShape, RoundSolidShape
+        from classy_blocks.construct.stack import Stack
+
+        return ((RoundSolidShape, "core"), (RoundSolidShape, "shell"), (RoundHollowShape, "shell"), (LoftedShape, "operations"),
+                (LoftedShape, "grid"), (Stack, "grid"), (Stack, "operations"))
+
+    for k, attr in _safe(shape_pins, ()):
+        pins.append((f"{k.__name__}.{attr}", _safe(lambda k=k, attr=attr: _definer(k, attr).__name__, "?"),
+                     _safe(lambda k=k, attr=attr: returns(k, attr), "?")))
+    emit("c19Returns", "List (String × String × String)", pins,
+         "(what, defining class, the expression its single `return` statement returns; names bound in it renamed v0, v1, …)")
+
+
+def _emit_slice(emit) -> None:
+    emit("c19SliceSpec", "List (Nat × List String)", _safe(slice_spec, []),
+         "the branches of Stack.get_slice after the guards (v0 = axis, v1 = index, `shape` = the loop variable over self.shapes, "
+         "`loop` = the comprehension variable)")
+
+
+def _emit_stack_chop(emit) -> None:
+    emit("c19StackChop", "List Nat", _safe(stack_chop_spec, []), "Stack.chop: shape.grid[a][b].chop(axis): [a, b, axis]")
+
+
+def _emit_grid_init(emit) -> None:
+    loops, coords, points = _safe(grid_init_spec, ([], [], []))
+    emit("c19GridLoops", "List (String × String)", loops, "Grid.__init__: (loop variable, argument of range), outer loop first")
+    emit("c19GridCoords", "List (String × Nat × String)", coords, "Grid.__init__: name = np.linspace(v0[c], v1[c], num=<count> + 1)")
+    emit("c19GridPoints", "List ((String × String × Nat) × (String × String × Nat))", points,
+         "Grid.__init__: the points of a face: ((x array, index variable, offset), (y array, index variable, offset)), z = 0")
+
+
+def emit_all(emit) -> None:
+    guard = getattr(emit, "guard", None) or (lambda fn, *a, **k: fn(*a, **k))
+    # value tables read off instances / classes first (the Base model needs the two probe tables) …
+    guard(_emit_probe_sketches, emit)
+    guard(_emit_probe_shapes, emit)
+    guard(_emit_values, emit)
+    # … then every ast group on its own; each emits its table whatever the source looks like (unknown forms degrade per class)
+    for group in (_emit_quad_maps, _emit_grid_specs, _emit_merges, _emit_returns, _emit_slice, _emit_stack_chop, _emit_grid_init):
+        guard(group, emit)
